@@ -19,6 +19,11 @@
 //!     in that phase, with exactly the accepted votes (shard, yes/no, lock handle), and some
 //!     completion call succeeds (`commit`, or `complete_*` for the phase `recover()` chose).
 //!   * still collecting votes => not present again; no locks held after recovery / after completion.
+//!   * a completed transaction whose yes votes carried lock handles and whose release is not in
+//!     the prefix gets those handles released by recovery (real `TxRecoveryState` over the decoded
+//!     prefix, and the release count `recover_from_wal` reports); either outcome.
+//!   * any completion that is in the log — before the crash or logged by commit()/abort() since —
+//!     stays final across later recovery calls on the same coordinator.
 //!   * recovery itself succeeds, at any byte, also after appending to a log that had a torn tail.
 
 use common::*;
@@ -128,6 +133,8 @@ struct TxLog {
     phase: TxPhase,
     was_prepared: bool,
     outcome: Option<TxOutcome>,
+    released: std::collections::BTreeSet<u64>,
+    all_released: bool,
 }
 
 #[derive(Clone, Copy, Debug, PartialEq, Eq)]
@@ -142,6 +149,20 @@ enum Class {
 }
 
 impl TxLog {
+    /// lock handles of a completed transaction (its accepted yes votes) whose release is not in
+    /// the durable prefix: recovery has to release them
+    fn unreleased_handles(&self) -> Vec<u64> {
+        if self.outcome.is_none() || self.all_released {
+            return Vec::new();
+        }
+        self.accepted
+            .values()
+            .filter_map(|v| match v {
+                PrepareVoteKind::Yes { lock_handle } if !self.released.contains(lock_handle) => Some(*lock_handle),
+                _ => None,
+            })
+            .collect()
+    }
     fn class(&self) -> Class {
         match self.outcome {
             Some(TxOutcome::Committed) => Class::Committed,
@@ -179,6 +200,8 @@ fn build_model(recs: &[Rec], vote_accept: &HashMap<usize, bool>) -> Option<Model
                         phase: TxPhase::Preparing,
                         was_prepared: false,
                         outcome: None,
+                        released: Default::default(),
+                        all_released: false,
                     },
                 );
             }
@@ -207,6 +230,16 @@ fn build_model(recs: &[Rec], vote_accept: &HashMap<usize, bool>) -> Option<Model
                     if t.outcome.is_none() {
                         t.outcome = Some(*outcome);
                     }
+                }
+            }
+            TxWalEntry::LockRelease { tx_id, lock_handle } => {
+                if let Some(t) = m.get_mut(tx_id) {
+                    t.released.insert(*lock_handle);
+                }
+            }
+            TxWalEntry::AllLocksReleased { tx_id } => {
+                if let Some(t) = m.get_mut(tx_id) {
+                    t.all_released = true;
                 }
             }
             _ => {}
@@ -328,15 +361,56 @@ fn recovery_script(
     coord: &DistributedTxCoordinator,
     model: &Model,
     names: &Names,
+    recs: &[Rec],
     rng: &mut Rng,
     out: &mut Vec<Found>,
     rep: &mut Report,
 ) -> bool {
-    if let Err(e) = coord.recover_from_wal() {
-        out.push(Found { sig: "recovery-error".into(), detail: format!("recover_from_wal failed: {}", e) });
-        return false;
-    }
+    let stats = match coord.recover_from_wal() {
+        Ok(s) => s,
+        Err(e) => {
+            out.push(Found { sig: "recovery-error".into(), detail: format!("recover_from_wal failed: {}", e) });
+            return false;
+        }
+    };
     rep.count("recoveries", 1);
+
+    // ---- "locks of completed transactions are released": a completed transaction whose yes
+    // votes carried lock handles, and whose release is not in the durable prefix (the crash came
+    // between logging the completion and dropping the locks), must have those handles released by
+    // recovery. Observed where the property names it: the real classification of the durable
+    // prefix (`TxRecoveryState`, fed with the records the harness decoded) and the number of
+    // releases `recover_from_wal` reports.
+    {
+        let entries: Vec<TxWalEntry> = recs.iter().map(|r| r.entry.clone()).collect();
+        let state = tensor_chain::tx_wal::TxRecoveryState::from_entries(&entries);
+        let mut expected = 0usize;
+        for (&tx, t) in model {
+            let need = t.unreleased_handles();
+            if need.is_empty() {
+                continue;
+            }
+            expected += need.len();
+            rep.count("checked:unreleased-locks-of-completed-tx", 1);
+            rep.count(if t.outcome == Some(TxOutcome::Committed) { "checked:unreleased-locks-after-commit" } else { "checked:unreleased-locks-after-abort" }, 1);
+            let missing: Vec<u64> = need.iter().copied().filter(|h| !state.orphaned_locks.iter().any(|o| o.tx_id == tx && o.lock_handle == *h)).collect();
+            if !missing.is_empty() {
+                out.push(Found {
+                    sig: format!("locks-of-completed-tx-not-released-by-recovery:{:?}", t.outcome.unwrap()),
+                    detail: format!(
+                        "{} was logged {:?} holding lock handles {:?} (yes votes) with no release in the log; the recovery state does not list {:?} for release (it lists {:?})",
+                        names.n(tx), t.outcome.unwrap(), need, missing, state.orphaned_locks.iter().map(|o| (names.n(o.tx_id), o.lock_handle)).collect::<Vec<_>>()
+                    ),
+                });
+            }
+        }
+        if stats.lock_releases_recovered < expected {
+            out.push(Found {
+                sig: "locks-of-completed-tx-not-released-by-recovery:count".into(),
+                detail: format!("recover_from_wal released {} lock handles of completed transactions, the durable prefix requires {}", stats.lock_releases_recovered, expected),
+            });
+        }
+    }
 
     // ---- state right after recovery
     let present_after_replay: Vec<u64> = model.keys().copied().filter(|tx| coord.get(*tx).is_some()).collect();
@@ -439,6 +513,7 @@ fn recovery_script(
     }
 
     // ---- hostile calls against logged outcomes, completion of unfinished transactions
+    let mut done_now: Vec<(u64, TxOutcome)> = Vec::new(); // completions logged by this coordinator
     let mut order: Vec<u64> = model.keys().copied().collect();
     rng.shuffle(&mut order);
     for tx in order {
@@ -490,10 +565,16 @@ fn recovery_script(
                     TxPhase::Prepared => {
                         // a prepared transaction without outcome may legitimately be aborted too
                         if rng.below(4) == 0 {
-                            let _ = coord.abort(tx, "client abort after restart");
+                            if coord.abort(tx, "client abort after restart").is_ok() {
+                                done_now.push((tx, TxOutcome::Aborted));
+                            }
                             continue;
                         }
-                        coord.commit(tx).map_err(|e| format!("commit: {}", e))
+                        let r = coord.commit(tx).map_err(|e| format!("commit: {}", e));
+                        if r.is_ok() {
+                            done_now.push((tx, TxOutcome::Committed));
+                        }
+                        r
                     }
                     TxPhase::Committing => coord.complete_commit(tx).map_err(|e| format!("complete_commit: {}", e)),
                     TxPhase::Aborting => coord.complete_abort(tx).map_err(|e| format!("complete_abort: {}", e)),
@@ -533,11 +614,55 @@ fn recovery_script(
             _ => {}
         }
     }
+
+    // ---- a later recovery call on the same coordinator: every completion that is in the log by
+    // now (before the crash, or logged by commit()/abort() since the restart) stays final
+    if rng.below(3) != 0 {
+        if let Err(e) = coord.recover_from_wal() {
+            out.push(Found { sig: "recovery-error".into(), detail: format!("later recover_from_wal failed: {}", e) });
+            return false;
+        }
+        if rng.bool() {
+            let _ = coord.recover();
+        }
+        rep.count("later_recovery_calls", 1);
+        let mut logged: Vec<(u64, TxOutcome, &str)> = done_now.iter().map(|(t, o)| (*t, *o, "after the restart")).collect();
+        for (&tx, t) in model {
+            if let Some(o) = t.outcome {
+                logged.push((tx, o, "before the crash"));
+            }
+        }
+        rep.count("checked:completed-across-later-recovery-call", logged.len() as u64);
+        rep.count("checked:completed-after-restart-across-later-recovery-call", done_now.len() as u64);
+        for (tx, o, when) in logged {
+            let n = names.n(tx);
+            if let Some(cur) = coord.get(tx) {
+                out.push(Found {
+                    sig: format!("completed-tx-pending-again:{:?}-as-{:?}:after-later-recovery-call", o, cur.phase),
+                    detail: format!("{} was logged {:?} {}; after a later recover_from_wal() on the same coordinator it is pending again in phase {:?}", n, o, when, cur.phase),
+                });
+            }
+            let reversed = match o {
+                TxOutcome::Committed => coord.abort(tx, "late abort").is_ok().then_some("logged-commit-reversed:abort-accepted"),
+                _ => coord.commit(tx).is_ok().then_some("logged-abort-reversed:commit-accepted"),
+            };
+            if let Some(sig) = reversed {
+                out.push(Found { sig: sig.into(), detail: format!("{} was logged {:?} {}; after a later recover_from_wal() the opposite decision was accepted", n, o, when) });
+            }
+        }
+        let swept = coord.cleanup_timeouts();
+        let _ = coord.take_pending_aborts();
+        for (tx, o) in &done_now {
+            if swept.contains(tx) {
+                out.push(Found { sig: format!("logged-outcome-reversed:timed-out-after-{:?}", o), detail: format!("{} was logged {:?} after the restart; cleanup_timeouts() returned it after a later recovery call", names.n(*tx), o) });
+            }
+        }
+    }
     true
 }
 
 /// One restart on a copy of the log cut at `prefix.len()`, judged against `model`.
-fn eval_copy(img: &Path, prefix: &[u8], model: &Model, names: &Names, seed: u64, rep: &mut Report) -> Option<Vec<Found>> {
+fn eval_copy(img: &Path, prefix: &[u8], model: &Model, recs: &[Rec], names: &Names, seed: u64, rep: &mut Report) -> Option<Vec<Found>> {
     if std::fs::write(img, prefix).is_err() {
         return None;
     }
@@ -546,7 +671,7 @@ fn eval_copy(img: &Path, prefix: &[u8], model: &Model, names: &Names, seed: u64,
     match TxWal::open(img) {
         Ok(w) => {
             let c = new_coordinator(w);
-            recovery_script(&c, model, names, &mut srng, &mut found, rep);
+            recovery_script(&c, model, names, recs, &mut srng, &mut found, rep);
         }
         Err(e) => found.push(Found { sig: "wal-open-failed".into(), detail: format!("TxWal::open failed: {}", e) }),
     }
@@ -560,7 +685,7 @@ fn independent_sigs(img: &Path, prefix: &[u8], seg_starts: &[usize], vote_accept
     let (recs, _) = logical_log_opt(prefix, prefix.len(), seg_starts, true);
     let Some(model) = build_model(&recs, vote_accept) else { return Vec::new() };
     let mut scratch = Report::new();
-    eval_copy(img, prefix, &model, names, seed, &mut scratch).unwrap_or_default().into_iter().map(|f| f.sig).collect()
+    eval_copy(img, prefix, &model, &recs, names, seed, &mut scratch).unwrap_or_default().into_iter().map(|f| f.sig).collect()
 }
 
 fn classify(garbage: bool, independent: &[String], f: Found) -> Found {
@@ -626,6 +751,8 @@ fn workload(coord: &DistributedTxCoordinator, ch: &mut Chain, rng: &mut Rng, epo
     let steps = if epoch == 0 { 8 + rng.below(30) } else { 3 + rng.below(20) };
     let max_new = if epoch == 0 { 1 + rng.below(4) } else { rng.below(3) };
     let mut begun = 0usize;
+    // completions this coordinator logged itself (commit()/abort() returned Ok: TxComplete is on disk)
+    let mut live_done: HashMap<u64, TxOutcome> = HashMap::new();
     let transport = h_chain::CaptureTransport::new("coord", &[]);
     for _ in 0..steps {
         let w_begin = if begun < max_new { 5 } else { 0 };
@@ -664,7 +791,8 @@ fn workload(coord: &DistributedTxCoordinator, ch: &mut Chain, rng: &mut Rng, epo
             2 | 3 | 6 => {
                 let i = rng.below(ch.txs.len());
                 let tx = ch.txs[i].id;
-                let logged = known.get(&tx).and_then(|t| t.outcome);
+                let before_crash = known.get(&tx).and_then(|t| t.outcome);
+                let logged = before_crash.or_else(|| live_done.get(&tx).copied());
                 let (name, ok) = match op {
                     2 => ("commit", coord.commit(tx).is_ok()),
                     3 => ("abort", coord.abort(tx, "client").is_ok()),
@@ -686,8 +814,13 @@ fn workload(coord: &DistributedTxCoordinator, ch: &mut Chain, rng: &mut Rng, epo
                     if let Some(r) = reversed {
                         out.push(Found {
                             sig: format!("{}:{}-accepted", r, name),
-                            detail: format!("{} was logged {:?} before the crash; {}() succeeded later in the restarted coordinator", ch.names.n(tx), logged.unwrap(), name),
+                            detail: format!(
+                                "{} was logged {:?} {}; {}() succeeded later on the same coordinator",
+                                ch.names.n(tx), logged.unwrap(), if before_crash.is_some() { "before the crash" } else { "by this coordinator" }, name
+                            ),
                         });
+                    } else if logged.is_none() && (name == "commit" || name == "abort") {
+                        live_done.insert(tx, if name == "commit" { TxOutcome::Committed } else { TxOutcome::Aborted });
                     }
                 }
             }
@@ -698,10 +831,10 @@ fn workload(coord: &DistributedTxCoordinator, ch: &mut Chain, rng: &mut Rng, epo
                 rep.count("op:timeout-sweep", 1);
                 rep.count("timed_out", swept.len() as u64);
                 for tx in swept {
-                    if let Some(o) = known.get(&tx).and_then(|t| t.outcome) {
+                    if let Some(o) = known.get(&tx).and_then(|t| t.outcome).or_else(|| live_done.get(&tx).copied()) {
                         out.push(Found {
                             sig: format!("logged-outcome-reversed:timed-out-after-{:?}", o),
-                            detail: format!("{} was logged {:?} before the crash; cleanup_timeouts() returned it", ch.names.n(tx), o),
+                            detail: format!("{} was logged {:?} earlier; cleanup_timeouts() returned it", ch.names.n(tx), o),
                         });
                     }
                 }
@@ -739,6 +872,17 @@ fn workload(coord: &DistributedTxCoordinator, ch: &mut Chain, rng: &mut Rng, epo
                     rep.count("op:recover", 1);
                 }
                 rep.count("live_lock_holders_across_recovery_calls", holding.len() as u64);
+                // a logged completion stays final across the call
+                let completed: Vec<(u64, TxOutcome)> = known.iter().filter_map(|(t, l)| l.outcome.map(|o| (*t, o))).chain(live_done.iter().map(|(t, o)| (*t, *o))).collect();
+                rep.count("checked:completed-across-later-recovery-call", completed.len() as u64);
+                for (tx, o) in completed {
+                    if let Some(cur) = coord.get(tx) {
+                        out.push(Found {
+                            sig: format!("completed-tx-pending-again:{:?}-as-{:?}:after-later-recovery-call", o, cur.phase),
+                            detail: format!("{} was logged {:?}; after {}() on the running coordinator it is pending again in phase {:?}", ch.names.n(tx), o, name, cur.phase),
+                        });
+                    }
+                }
                 for tx in holding {
                     let left = coord.lock_manager().keys_for_transaction(tx);
                     if coord.get(tx).is_none() && !left.is_empty() {
@@ -839,7 +983,7 @@ fn run_case(args: &Args, case_seed: u64, rep: &mut Report) {
             let mut found = Vec::new();
             let script_seed = rng.next_u64();
             let mut srng = Rng::new(script_seed);
-            let ok = recovery_script(&coord, &model, &ch.names, &mut srng, &mut found, rep);
+            let ok = recovery_script(&coord, &model, &ch.names, &recs, &mut srng, &mut found, rep);
             let log = describe(&recs, &ch.names, &ch.vote_accept);
             rep.eval(hash_combine(hash_str(&log), 0xC4A1), is_nontrivial(&model));
             rep.count("chain_restarts", 1);
@@ -915,7 +1059,7 @@ fn run_case(args: &Args, case_seed: u64, rep: &mut Report) {
                 continue;
             };
             let seed = case_seed ^ (b as u64).wrapping_mul(0x9E37_79B9) ^ ((epoch as u64) << 56);
-            let Some(found) = eval_copy(&ch.img, &bytes[..b], &model, &ch.names, seed, rep) else {
+            let Some(found) = eval_copy(&ch.img, &bytes[..b], &model, &recs, &ch.names, seed, rep) else {
                 rep.inconclusive("scratch write failed");
                 continue;
             };
@@ -1162,6 +1306,9 @@ fn main() {
                 ("hostile:commit-after-logged-abort", 500),
                 ("chain_crashes_with_torn_tail", 30),
                 ("live_lock_holders_across_recovery_calls", 100),
+                ("checked:unreleased-locks-after-commit", 200),
+                ("checked:unreleased-locks-after-abort", 2_000),
+                ("checked:completed-after-restart-across-later-recovery-call", 500),
             ]
         },
         exhaustive: false,
